@@ -45,7 +45,9 @@ class C01(Check):
         "Lexer(config).lex. Oracle: tokens concatenate to the rendered text; non-meta tokens tile it contiguously; "
         "source slices in bounds with start<=stop; identical to rendered slices when untemplated; non-decreasing "
         "unless the templater's own slice map steps back (loop); union of token source slices covers the source; "
-        "#unlexable tokens == #LXR errors at the same positions; last token end_of_file; no exception. "
+        "#unlexable tokens == #LXR errors at the same positions; last token end_of_file; no exception; raw inputs that "
+        "contain a carriage return are additionally lexed as given (Lexer.lex(str), without the linter's newline "
+        "normalisation). "
         "Non-trivial: input has an unlexable token, non-ASCII/control character, unterminated quote/comment "
         "(mutated), or is templated with a non-literal slice; distinct by SHA-1 of the case."
     )
